@@ -1,10 +1,10 @@
 #!/usr/bin/env python3
-"""Markdown table of seeded defects from seeded/results.json.  usage: tools/seed_table.py ABCD | EFGH | IJKL"""
+"""Markdown table of seeded defects from seeded/results.json.  usage: tools/seed_table.py ABCD | EFGH | IJKL | Y,Z,AA,BB"""
 import json, sys
 from pathlib import Path
 V = Path(__file__).resolve().parents[1]
 res = json.loads((V / 'seeded' / 'results.json').read_text())
-letters = set(sys.argv[1]) if len(sys.argv) > 1 else None
+letters = (set(sys.argv[1].split(',')) if ',' in sys.argv[1] else set(sys.argv[1])) if len(sys.argv) > 1 else None
 print('| seed | property | change | needs | result of `./check <property> quick` (seed 0) |')
 print('|------|----------|--------|-------|------|')
 for k in sorted(res):
